@@ -9,6 +9,8 @@
 import IocProofs.Lemmas.MatchPoint
 import IocProofs.Lemmas.TagTotal
 import IocProofs.Lemmas.MatchExamples
+import IocProofs.Lemmas.M2SucceedsPerm
+import Ioc.Generated.Facts
 namespace Ioc.C10
 open Ioc Ioc.Tag Ioc.Match
 
@@ -136,5 +138,92 @@ example : (resolveOne pop namedZ).isNone = true ∧ (resolveOne pop' namedZ).isN
 end examples
 
 /-! ## run level (added later) -/
+
+/-! Model: Ioc.Container (M2).  The enumeration order of the registry reaches the factory machine only as the order of the
+  candidate lists of its points (M3 hands them over in that order: `C10_choice_perm`; slices keep it, single points are
+  narrowed to one candidate).  `Sx.SameUpToOrder sc sc'` (Lemmas/M2SucceedsPerm.lean): same `names boot eager`, same
+  `wired logged cfgOk fBefore fAps fInit fAfter fEarly earlyO afterO` at every name, and for every name `points` is
+  `none` for both or `some` lists related point by point (`Sx.All2`) by `Sx.PointPerm`: `cands` permuted, same `slice`,
+  `required`, same `incompat` as a set.
+  `Sx.NoSubstitution sc`: `earlyO n = raw n ∧ afterO n = raw n` for all n.
+  `Sx.Reach sc n`: n ∈ boot ++ eager or a candidate of a point of a reached name. -/
+section run
+open Ioc.M2 Ioc.M2.Sx
+
+/- The full statement
+     theorem C10_run_perm (sc sc') (h : SameUpToOrder sc sc') : (final sc).status = .done ↔ (final sc').status = .done
+   is FALSE of the model and of the code in two ways: a post-processor that substitutes a component on a cycle after
+   initialization (`C10_counterexample`, finding D6 / KF-C10-1), and — even without any substitution — a failing
+   early-reference factory of a component on a cycle (`C10_counterexample_early`): which member of a cycle is asked for
+   its early reference depends on which member is created first.  Proved: the statement without substitution and
+   without a failing early-reference factory on a reachable name. -/
+theorem C10_run_perm_partial (sc sc' : Scen) (h : SameUpToOrder sc sc') (ns : NoSubstitution sc)
+    (ns' : NoSubstitution sc') (he : ∀ n, Reach sc n → sc.fEarly n = false) :
+    (final sc).status = .done ↔ (final sc').status = .done :=
+  run_perm sc sc' h ns ns' he
+
+/-- … because success is characterised by order-independent data: the reachable names and their static faults -/
+theorem C10_reach_fault_perm (sc sc' : Scen) (h : SameUpToOrder sc sc') (n : Nat) :
+    (Reach sc n ↔ Reach sc' n) ∧ (StaticFault sc n ↔ StaticFault sc' n) :=
+  ⟨⟨fun hr => hr.perm h, fun hr => hr.perm h.symm⟩, ⟨fun hf => hf.perm h, fun hf => hf.perm h.symm⟩⟩
+
+/-- holder 0 with one slice point over `order`; 1 ↔ 2 a cycle; everything else benign -/
+def ring (order : List Nat) : Scen :=
+  { names := [0, 1, 2], boot := [], eager := [0, 1, 2],
+    points := fun n => match n with
+      | 0 => some [⟨order, true, true, []⟩]
+      | 1 => some [⟨[2], false, true, []⟩]
+      | 2 => some [⟨[1], false, true, []⟩]
+      | _ => some [],
+    wired := fun _ => true, logged := fun _ => true, cfgOk := fun _ => true,
+    fBefore := fun _ => false, fAps := fun _ => false, fInit := fun _ => false, fAfter := fun _ => false,
+    fEarly := fun _ => false, earlyO := raw, afterO := raw }
+
+/-- D6: InitializeComponent substitutes component 1 -/
+def d6 (order : List Nat) : Scen := { ring order with afterO := fun n => if n = 1 then ⟨1, 2⟩ else raw n }
+
+/-- the early-reference factory of component 1 fails; no substitution anywhere -/
+def ringEarly (order : List Nat) : Scen := { ring order with fEarly := fun n => n == 1 }
+
+theorem ring_points_rel (n : Nat) : PointsRel ((ring [1, 2]).points n) ((ring [2, 1]).points n) := by
+  match n with
+  | 0 => exact .cons ⟨by decide, rfl, rfl, fun _ => Iff.rfl⟩ .nil
+  | 1 => exact .cons ⟨by decide, rfl, rfl, fun _ => Iff.rfl⟩ .nil
+  | 2 => exact .cons ⟨by decide, rfl, rfl, fun _ => Iff.rfl⟩ .nil
+  | _ + 3 => exact .nil
+
+/-- KF-C10-1 (D6) in the model: the two scenarios differ only in the order of the slice candidates of the holder, yet one
+    start fails at the version check of component 1 and the other succeeds -/
+theorem C10_counterexample :
+    SameUpToOrder (d6 [1, 2]) (d6 [2, 1]) ∧
+    (final (d6 [1, 2])).status = .failed 1 .refresh ∧ (final (d6 [2, 1])).status = .done :=
+  ⟨⟨rfl, rfl, rfl, fun _ => rfl, fun _ => rfl, fun _ => rfl, fun _ => rfl, fun _ => rfl, fun _ => rfl, fun _ => rfl,
+    fun _ => rfl, fun _ => rfl, fun _ => rfl, ring_points_rel⟩, by decide, by decide⟩
+
+/-- without any substitution: a failing early-reference factory on a cycle is met under one order and not the other -/
+theorem C10_counterexample_early :
+    SameUpToOrder (ringEarly [1, 2]) (ringEarly [2, 1]) ∧
+    NoSubstitution (ringEarly [1, 2]) ∧ NoSubstitution (ringEarly [2, 1]) ∧
+    (final (ringEarly [1, 2])).status = .failed 1 .refresh ∧ (final (ringEarly [2, 1])).status = .done :=
+  ⟨⟨rfl, rfl, rfl, fun _ => rfl, fun _ => rfl, fun _ => rfl, fun _ => rfl, fun _ => rfl, fun _ => rfl, fun _ => rfl,
+    fun _ => rfl, fun _ => rfl, fun _ => rfl, ring_points_rel⟩, fun _ => ⟨rfl, rfl⟩, fun _ => ⟨rfl, rfl⟩,
+   by decide, by decide⟩
+
+/-- regenerated from factory.go / definition registry: Refresh still sorts the names before creating them (the order of
+    `eager` is not an input), GetMetas still enumerates in map order (which is why the candidate order IS an input) -/
+theorem C10_refresh_sorted : Ioc.Facts.refreshSortsNames = true ∧ Ioc.Facts.getMetasSorts = false := by decide
+
+/-! non-vacuity of C10_run_perm_partial: the benign ring under both orders (both starts succeed), and the ring with a
+    failing Init of 2 (both fail) -/
+example : SameUpToOrder (ring [1, 2]) (ring [2, 1]) ∧ NoSubstitution (ring [1, 2]) ∧ NoSubstitution (ring [2, 1]) ∧
+    (∀ n, Reach (ring [1, 2]) n → (ring [1, 2]).fEarly n = false) :=
+  ⟨⟨rfl, rfl, rfl, fun _ => rfl, fun _ => rfl, fun _ => rfl, fun _ => rfl, fun _ => rfl, fun _ => rfl, fun _ => rfl,
+    fun _ => rfl, fun _ => rfl, fun _ => rfl, ring_points_rel⟩, fun _ => ⟨rfl, rfl⟩, fun _ => ⟨rfl, rfl⟩, fun _ _ => rfl⟩
+example : (final (ring [1, 2])).status = .done ∧ (final (ring [2, 1])).status = .done ∧
+    (final (ring [1, 2])).fields 0 0 = [raw 1, raw 2] ∧ (final (ring [2, 1])).fields 0 0 = [raw 2, raw 1] := by decide
+example : (final { ring [1, 2] with fInit := fun n => n == 2 }).status = .failed 2 .refresh ∧
+    (final { ring [2, 1] with fInit := fun n => n == 2 }).status = .failed 2 .refresh := by decide
+
+end run
 
 end Ioc.C10
